@@ -11,9 +11,9 @@ META = {
                  "{char, short, unsigned, long, unsigned long, long long, int*} x 3 wrapper forms (plain, tainted, opaque/nullptr), all argument and result "
                  "values symbolic; two live instances bound to different libraries exporting the same name, in both lookup orders; function address before and "
                  "after an invocation; noop backend in static-call mode",
-        "thorough": "same",
+        "thorough": "same plus a 12-parameter signature",
     },
-    "outside": "more than 6 parameters; struct-by-value parameters/results (C08); callback parameters (C12); float/double parameters",
+    "outside": "more than 12 parameters; struct-by-value parameters/results (C08); callback parameters (C12); float/double parameters",
     "assumptions": ["guest functions are stubs with the guest-ABI signature that log what they receive and return a symbolic value"],
 }
 SIZE = 1 << 32
@@ -28,6 +28,7 @@ P = {t.tag: t for t in [PT("char", "char", "char", 8, 8, True), PT("short", "sho
                         PT("long", "long", "int32_t", 64, 32, True), PT("ulong", "unsigned long", "uint32_t", 64, 32, False),
                         PT("llong", "long long", "int64_t", 64, 64, True), PT("intp", "int*", "uint32_t", 64, 32, False, True),
                         PT("int", "int", "int32_t", 32, 32, True)]}
+SIGS12 = {"s12": ("long", ["long", "uint", "llong", "intp", "char", "long", "short", "ulong", "int", "intp", "llong", "char"])}
 SIGS = {"s0": ("int", []), "s1": ("long", ["long"]), "s2": ("intp", ["intp", "ulong"]), "s3": ("ulong", ["short", "ulong", "char"]),
         "s6": ("llong", ["long", "uint", "llong", "intp", "char", "long"])}
 FORMS = ["plain", "tainted", "opaque"]
@@ -270,6 +271,8 @@ def check_noop(ctx):
 
 
 def jobs(tier, seed):
+    if tier == "thorough":
+        SIGS.update(SIGS12)
     src = gen_source()
     fl = ["-D_GLIBCXX_EXTERN_TEMPLATE=0"]
     items = [dict(name="BM %s %s" % (n, f), fn=check_sig, kw=dict(name=n, form=f), unwind=300) for n in SIGS for f in FORMS]
